@@ -486,6 +486,9 @@ class Engine:
             v = fl.get(f)
             return v if v is not None else Bool('flag!%d' % next(_fresh))
         kind, a, b, r, w, cin = fl
+        if kind == 'expl':
+            v = a.get(f)
+            return v if v is not None else Bool('flag!%d' % next(_fresh))
         msb = lambda x: Extract(w - 1, w - 1, x) == 1
         if f == 'zf':
             return simp(r == 0)
